@@ -55,6 +55,10 @@ pub fn decimal_strcmp(a: &str, b: &str) -> Option<Ordering> {
 /// * `b` - Second number string (digits only, no sign)
 /// * `b_neg` - Whether second number is negative
 pub fn decimal_strcmp_with_sign(a: &str, a_neg: bool, b: &str, b_neg: bool) -> Ordering {
+    // A zero magnitude has no sign: -0 == 0 == +0
+    let a_neg = a_neg && !is_zero_magnitude(a);
+    let b_neg = b_neg && !is_zero_magnitude(b);
+
     // Different signs: negative < positive
     match (a_neg, b_neg) {
         (true, false) => return Ordering::Less,
@@ -111,6 +115,10 @@ pub fn realnum_strcmp(a: &str, b: &str) -> Option<Ordering> {
 
 /// Compare two real number strings with pre-parsed signs
 pub fn realnum_strcmp_with_sign(a: &str, a_neg: bool, b: &str, b_neg: bool) -> Ordering {
+    // A zero magnitude has no sign: -0.0 == 0 == +0
+    let a_neg = a_neg && !is_zero_magnitude(a);
+    let b_neg = b_neg && !is_zero_magnitude(b);
+
     // Different signs: negative < positive
     match (a_neg, b_neg) {
         (true, false) => return Ordering::Less,
@@ -118,17 +126,13 @@ pub fn realnum_strcmp_with_sign(a: &str, a_neg: bool, b: &str, b_neg: bool) -> O
         _ => {}
     }
 
-    // Find decimal point positions
-    let a_dot = a.find('.').unwrap_or(a.len());
-    let b_dot = b.find('.').unwrap_or(b.len());
+    // Split into integer part and fraction, drop the zeros that carry no value
+    let (a_int, a_frac) = split_realnum(a);
+    let (b_int, b_frac) = split_realnum(b);
 
-    let cmp = if a_dot == b_dot {
-        // Same integer part length - lexicographic comparison works
-        a.cmp(b)
-    } else {
-        // Different integer part lengths - longer integer part is larger
-        a_dot.cmp(&b_dot)
-    };
+    // Integer parts compare as decimals (leading zeros ignored, longer = larger);
+    // fractions compare digit by digit once trailing zeros are gone
+    let cmp = compare_decimal_magnitude(a_int, b_int).then_with(|| a_frac.cmp(b_frac));
 
     // For negative numbers, reverse the comparison
     if a_neg {
@@ -164,6 +168,20 @@ fn parse_sign(s: &str) -> Option<(&str, bool)> {
         }
         _ => Some((s, false)),
     }
+}
+
+// Helper: true when the digits (and the optional dot) denote zero
+fn is_zero_magnitude(s: &str) -> bool {
+    s.bytes().all(|c| c == b'0' || c == b'.')
+}
+
+// Helper: (integer digits, fraction digits without trailing zeros)
+fn split_realnum(s: &str) -> (&str, &str) {
+    let (int, frac) = match s.find('.') {
+        Some(dot) => (&s[..dot], &s[dot + 1..]),
+        None => (s, ""),
+    };
+    (int, frac.trim_end_matches('0'))
 }
 
 // Helper: validate real number string (digits and at most one dot)
